@@ -16,7 +16,9 @@ RULE = ('well-framed messages (UPDATE, OPEN, NOTIFICATION, ROUTE-REFRESH, KEEPAL
         'single-octet edits, length-field edits, truncations, TLV splices, random mutations; each delivered in OpenSent, OpenConfirm and '
         'Established, on sessions with a 4-octet-AS and a 2-octet-AS peer, plus valid-looking OPENs with other capability sets; a session '
         'that survives in OpenSent/OpenConfirm is completed by the peer; then a known-good probe sequence (3 UPDATEs, ROUTE-REFRESH, KEEPALIVE), 40 s of timers and, if the session is gone, '
-        'idle-hold time to see the reconnect; distinct = distinct (type, body, state)')
+        'idle-hold time to see the reconnect; plus history independence of the decoders: one list of UPDATE bodies (unit-test corpus, every BGP-LS '
+        'NLRI under every protocol-id with and without a link-state attribute, mutations) is decoded by fresh interpreters front to back, '
+        'back to front and shuffled - every body must decode the same in all three; distinct = distinct (type, body, state)')
 ASSUMPTIONS = ['simulated reactor/transport (verif/shims) records exceptions escaping dataReceived / timer callbacks',
                'line budget per dataReceived 5000 + 400*octets + 3000*frames']
 SHARD_TIMEOUT = {'quick': 400, 'thorough': 2400}
@@ -233,13 +235,124 @@ def run_case(typ, body, state, stats, V, as4=True):
                       detail='unhandled %s after the input' % (reactor.escaped[0],), replay=rep))
 
 
+# ---------------------------------------------------------------- decoding does not depend on what was decoded before
+def bgpls_protocol_variants(body):
+    """copies of an UPDATE body whose BGP-LS NLRIs (MP_REACH 16388/71) carry another protocol-id: the same descriptor octets
+    under IS-IS, OSPF, direct, static, BGP ... are different routes and decode differently"""
+    try:
+        wl = struct.unpack('!H', body[:2])[0]
+        al = struct.unpack('!H', body[2 + wl:4 + wl])[0]
+        i, end = 4 + wl, 4 + wl + al
+        spots = []
+        while i < end:
+            fl, code = body[i], body[i + 1]
+            h = 4 if fl & 0x10 else 3
+            ln = struct.unpack('!H', body[i + 2:i + 4])[0] if fl & 0x10 else body[i + 2]
+            if code == 14 and body[i + h:i + h + 3] == b'\x40\x04\x47':
+                v0 = i + h
+                j = v0 + 4 + body[v0 + 3] + 1
+                while j + 5 <= i + h + ln:
+                    spots.append(j + 4)
+                    j += 4 + struct.unpack('!H', body[j + 2:j + 4])[0]
+            i += h + ln
+    except Exception:
+        return []
+    out = []
+    for proto in (1, 2, 3, 4, 5, 6, 7, 0, 200):
+        if spots:
+            b = bytearray(body)
+            for sp in spots:
+                b[sp] = proto
+            out.append(bytes(b))
+    return out
+
+
+def history_messages(seed, n_mut):
+    """deterministic list of UPDATE bodies: the unit-test corpus, protocol-id variants of its BGP-LS messages, mutations"""
+    rng = random.Random(seed)
+    base = [b for t, b in corpus.messages() if t == 2]
+    # BGP-LS: every NLRI the unit tests know, as an UPDATE of its own, with and without a link-state attribute
+    from checks import c15
+    K, _ = c15.build_kinds(random.Random(1000), 300)
+    ls = K['linkstate-attribute-tlvs']['pool']
+    attrs0 = wrap_attr(1, b'\x00') + wrap_attr(2, b'') + wrap_attr(5, b'\x00\x00\x00\x64')
+    for nl in K['bgpls-nlris']['pool']:
+        mp = wrap_attr(14, struct.pack('!HBB', 16388, 71, 4) + b'\x0a\x00\x00\x01\x00' + nl)
+        base.append(update_body(attrs0 + mp))
+        if ls:
+            base.append(update_body(attrs0 + mp + wrap_attr(29, b''.join(rng.sample(ls, min(len(ls), rng.randint(1, 3)))))))
+    out = list(base)
+    for b in base:
+        out += bgpls_protocol_variants(b)
+    for _ in range(n_mut):
+        out.append(mutate.random_mutation(rng.choice(base), rng)[:4077])
+    rng.shuffle(out)
+    return out
+
+
+def decode_all(bodies, order):
+    from yabgp.message.update import Update
+    res = {}
+    for i in order:
+        for asn4 in (True, False):
+            try:
+                r = Update.parse(None, bodies[i], asn4)
+                res['%d/%d' % (i, asn4)] = json.dumps(norm(dict(attr=r['attr'], nlri=r['nlri'], withdraw=r['withdraw'], sub_error=r['sub_error'])), sort_keys=True)
+            except BaseException as e:
+                res['%d/%d' % (i, asn4)] = 'raised ' + type(e).__name__
+    return res
+
+
+def run_history(sh, res):
+    """the same list of messages decoded by fresh interpreters in forward, reverse and shuffled order: every message must
+    decode the same whatever was decoded before it (the list is built here; the helpers only decode)"""
+    import os
+    import subprocess
+    import sys
+    import tempfile
+    bodies = history_messages(sh['seed'], sh['n'])
+    fd, path = tempfile.mkstemp(prefix='verif-c10-hist-', suffix='.json', dir=os.environ.get('VERIF_TMP') or None)
+    with os.fdopen(fd, 'w') as fh:
+        json.dump([b.hex() for b in bodies], fh)
+    outs = {}
+    try:
+        for order in ('forward', 'reverse', 'shuffle'):
+            p = subprocess.run([sys.executable, '-m', 'checks.c10', '--history', path, order, str(sh['seed'])],
+                               cwd=os.path.dirname(os.path.dirname(os.path.abspath(__file__))), capture_output=True, text=True, timeout=1200,
+                               env=dict(os.environ, PYTHONHASHSEED='0'))
+            if p.returncode != 0:
+                raise RuntimeError('history helper failed: ' + p.stderr[-400:])
+            outs[order] = json.loads(p.stdout)
+    finally:
+        os.unlink(path)
+    V = {}
+    compared = 0
+    for order in ('reverse', 'shuffle'):
+        for k, v in outs['forward'].items():
+            compared += 1
+            if outs[order].get(k) != v:
+                i = int(k.split('/')[0])
+                V.setdefault('hist', dict(kind='decode-depends-on-history', features=['order:' + order],
+                                          detail='UPDATE body %s decodes to %s when the list is met front to back, to %s when it is met in %s order' % (
+                                              bodies[i].hex()[:160], v[:200], str(outs[order].get(k))[:200], order),
+                                          replay=dict(history_seed=sh['seed'], n=sh['n'], index=i, order=order)))
+    res['evaluations'] = compared
+    res['distinct'] = ['hist|%d|%s' % (sh['seed'], k) for k in outs['forward']]
+    res['counters'] = dict(history_decodes_compared=compared, history_messages=len(bodies))
+    res['violations'] = list(V.values())
+    return res
+
+
 def plan(tier, seed):
     n = 16
     per = 20000 if tier == 'quick' else 150000
-    return [dict(part=i, nparts=n, seed=seed * 100 + i, n=per, tier=tier) for i in range(n)]
+    return [dict(part=i, nparts=n, seed=seed * 100 + i, n=per, tier=tier) for i in range(n)] + \
+        [dict(kind='history', seed=seed * 100 + i, n=300 if tier == 'quick' else 3000, tier=tier) for i in range(2 if tier == 'quick' else 8)]
 
 
 def run_shard(sh):
+    if sh.get('kind') == 'history':
+        return run_history(sh, dict(evaluations=0, counters={}, maxima={}, sets={}, distinct=[], samples=[], violations=[]))
     METER.install()
     rng = random.Random(sh['seed'])
     stats = dict(max_lines=0, reports_hist=[0, 0, 0, 0], error_reports=0, outcomes={}, updates_in_established=0,
@@ -284,7 +397,7 @@ def run_shard(sh):
 def floors(m, tier):
     c = m['counters']
     unmet = []
-    for k in ('probes_compared', 'reconnect_checked', 'malformed_update_reports', 'updates_in_established'):
+    for k in ('probes_compared', 'reconnect_checked', 'malformed_update_reports', 'updates_in_established', 'history_decodes_compared'):
         if c.get(k, 0) < 500:
             unmet.append('%s below 500' % k)
     return unmet
@@ -297,3 +410,16 @@ def replay(rep):
     V = []
     run_case(rep['type'], bytes.fromhex(rep['body']), rep['state'], stats, V, rep.get('as4', True))
     return V
+
+
+if __name__ == '__main__':
+    import sys
+    if len(sys.argv) >= 5 and sys.argv[1] == '--history':
+        with open(sys.argv[2]) as fh_:
+            bodies_ = [bytes.fromhex(x) for x in json.load(fh_)]
+        idx = list(range(len(bodies_)))
+        if sys.argv[3] == 'reverse':
+            idx.reverse()
+        elif sys.argv[3] == 'shuffle':
+            random.Random(int(sys.argv[4]) + 1).shuffle(idx)
+        sys.stdout.write(json.dumps(decode_all(bodies_, idx)))
